@@ -66,8 +66,30 @@ def classify_store(fi: FunctionInfo, stmt, attr) -> str:
     return "depends_on_old"
 
 
+def construction_closure(ci: ClassInfo, construction) -> set:
+    """methods that run only as part of construction: the named construction methods plus every method all of whose call sites
+    (self.<m>(..) anywhere in the class hierarchy) lie in construction methods — a constructor split into private steps stays a constructor"""
+    classes = ci.mro()
+    callers = {}
+    for c in classes:
+        for name, fi in c.methods.items():
+            for n in ast.walk(fi.node):
+                if isinstance(n, ast.Call) and isinstance(n.func, ast.Attribute) and isinstance(n.func.value, ast.Name) and n.func.value.id == "self":
+                    callers.setdefault(n.func.attr, set()).add(name)
+    closed = set(construction)
+    changed = True
+    while changed:
+        changed = False
+        for m, cs in callers.items():
+            if m not in closed and m.startswith("_") and not m.startswith("__") and cs and cs <= closed:
+                closed.add(m)
+                changed = True
+    return closed
+
+
 def stores_in_class(ci: ClassInfo, skip_methods):
     out = []
+    skip_methods = construction_closure(ci, skip_methods)
     for name, fi in ci.methods.items():
         if name in skip_methods:
             continue
